@@ -92,6 +92,13 @@ pub fn run_one(prop: &str, base_seed: u64, tier: &str, index: u64, known: &Known
     let mut sim = match Sim::new(&cfg, active) {
         Ok(s) => s,
         Err(e) => {
+            // an implementation may reject an out-of-range threshold at instantiate instead of
+            // clamping it: such a deployment simply does not exist (no run, no verdict)
+            if e.starts_with("hub instantiate") && cfg.threshold() > cosmwasm_std::Decimal::one() {
+                let mut st = Stats::default();
+                st.probe("deployment_with_out_of_range_threshold_rejected");
+                return RunResult { index, seed, cfg, steps, violations: vec![], stats: st, harness_error: None, fault_free };
+            }
             return RunResult { index, seed, cfg, steps, violations: vec![], stats: Stats::default(), harness_error: Some(format!("genesis: {}", e)), fault_free };
         }
     };
